@@ -2,6 +2,7 @@ package ledger
 
 import (
 	"reflect"
+	"sync"
 
 	cstate "0chain.net/chaincore/chain/state"
 	"0chain.net/chaincore/transaction"
@@ -43,7 +44,10 @@ func PathOf(key string) string { return string(util.Path(encryption.Hash(key))) 
 
 func (w *World) installObserver() {
 	r := w.Reg
+	var mu sync.Mutex
 	cstate.VerifObserver = func(sc *cstate.StateContext, op int, key datastore.Key, v util.MPTSerializable, err error) {
+		mu.Lock()
+		defer mu.Unlock()
 		k := string(key)
 		if _, ok := r.PathKey[PathOf(k)]; !ok {
 			r.PathKey[PathOf(k)] = k
